@@ -19,7 +19,7 @@ BOUNDS = {'quick': 'graphs K2+K1, P3 (K3 for SIR Gillespie); all (I0,R0) up to a
 ASSUMPTIONS = ['floats as reals', 'random-source stubs (engine-controlled)', 'user rules for fast_nonMarkov_*: fresh symbolic delays/durations',
                'round() modelled as banker\'s rounding by solver forks']
 OPTS = {'quick': {'max_validate': 2, 'validate_every': 5, 'cfg_timeout': 150}, 'thorough': {'max_validate': 2, 'validate_every': 50, 'cfg_timeout': 900}}
-MUST_EVALUATE = {'quick': ['row0', 't0=tmin', 'statuses-at-tmin', 'history-first-entry', 'recovered-stay-recovered', 'style-equivalent',
+MUST_EVALUATE = {'quick': ['row0', 'default-one-random-node', 't0=tmin', 'statuses-at-tmin', 'history-first-entry', 'recovered-stay-recovered', 'style-equivalent',
                            'rho-count', 'rho-and-initial-infecteds-rejected', 'wrapper-equivalent', 'positional-equivalent']}
 
 SIR = ['Gillespie_SIR', 'fast_SIR', 'fast_nonMarkov_SIR', 'discrete_SIR', 'basic_discrete_SIR', 'percolation_based_discrete_SIR']
@@ -74,6 +74,9 @@ def configs(tier):
             for full in (False, True):
                 c = dict(entry=entry, family='rho', graph=g, I0=None, R0=[], full=full, zero='tau', p=0, no_transmission=True, tags=['rho', g, 'full' if full else 'plain'])
                 _bounds(entry, c, tier)
+                out.append(c)
+                # neither rho nor initial_infecteds: documented default = one node chosen uniformly at random
+                c = dict(c, default_ic=True, tags=['rho', 'default', g, 'full' if full else 'plain'])
                 out.append(c)
         for variant in ('rho+I0', 'rho0+I0', 'rho+emptyI0', 'rho+single'):
             out.append(dict(entry=entry, family='reject', variant=variant, graph='P3', I0=[0], R0=[], full=False, zero='tau', p=0, no_transmission=True,
@@ -290,6 +293,8 @@ def run_rho(h, cfg):
     N = r.N
     f = getattr(r.EoN, cfg['entry'])
     kw = dict(tmin=r.tmin, tmax=r.tmax, return_full_data=cfg.get('full', False), rho=rho)
+    if cfg.get('default_ic'):
+        kw.pop('rho')
     n0 = len(eng.log)
     ret = simruns.check_shape(h, r, call_with_rates(h, r, f, kw))
     if ret is None:
@@ -299,6 +304,16 @@ def run_rho(h, cfg):
         h.fail('rho-count', {'sample_calls': [[str(x) for x in s[1]] + [s[2]] for s in samples]})
         return None
     k = samples[0][2]
+    if cfg.get('default_ic'):
+        if k == 1:
+            h.require('default-one-random-node', True)
+        else:
+            h.fail('default-one-random-node', {'sampled': k})
+        picked = [samples[0][1][j] for j in samples[0][3]]
+        r.I0 = picked
+        o = simruns.outputs(r, ret)
+        simobl.initial_state(h, r, o, prefix='default:')
+        return simruns.result_struct(o, r.nodes)
     # k == int(round(N*rho)) with banker's rounding
     x = N * rho
     lo_ok = LE(k - 0.5, x) if k % 2 == 0 else LT(k - 0.5, x)
